@@ -303,11 +303,15 @@ func checkUploadCase(c UploadCase, r *Recorder) error {
 		ctlBefore, _ := os.ReadFile(filepath.Join(locDir, c.ctlName()))
 		ctlInDstBefore, ctlInDstErr := os.ReadFile(filepath.Join(dstDir, c.ctlName())) // an earlier copy of this history may have put one there
 		var operr error
+		destArg := dstDir
+		if c.Stale || len(c.Files)%2 == 1 {
+			destArg += "/" // a directory may be named with a trailing slash
+		}
 		switch op.Kind {
 		case "copy":
-			operr = h.Copy(dstDir)
+			operr = h.Copy(destArg)
 		case "move":
-			operr = h.Move(dstDir)
+			operr = h.Move(destArg)
 		default:
 			operr = h.Remove()
 		}
@@ -360,7 +364,7 @@ func checkUploadCase(c UploadCase, r *Recorder) error {
 		// ---- success
 		switch op.Kind {
 		case "copy", "move":
-			if want := dstDir + "/" + c.ctlName(); allPlain && filenameOf() != want {
+			if want := filepath.Join(dstDir, c.ctlName()); allPlain && filepath.Clean(filenameOf()) != want {
 				return errf("after %s the handle points at %q, want %q", op.Kind, filenameOf(), want)
 			}
 			if b, err := os.ReadFile(ctlInDst); allPlain && (err != nil || string(b) != ctlText) {
